@@ -40,6 +40,10 @@ var c19Hosts = []struct{ host, service, family string }{
 	{"youtube.com@evil.example", "", "youtube"}, {"player.vimeo.com@evil.example", "", "vimeo"}, {"twitter.com:x@evil.example", "", "twitter"},
 	{"evil.example/youtube.com", "", "youtube"}, {"evil.example/player.vimeo.com", "", "vimeo"}, {"evil.example/twitter.com", "", "twitter"},
 	{"evil.example/x?u=http://www.youtube.com", "", "youtube"},
+	// "@" outside the authority: in the path or in the query
+	{"evil.example/@www.youtube.com", "", "youtube"}, {"evil.example/a@player.vimeo.com", "", "vimeo"}, {"evil.example/@twitter.com", "", "twitter"},
+	{"evil.example/x?m=press@youtube.com", "", "youtube"}, {"evil.example/x?m=a@twitter.com", "", "twitter"}, {"evil.example/x?m=a@player.vimeo.com", "", "vimeo"},
+	{"evil.example/x?u=//www.youtube.com", "", "youtube"}, {"evil.example/x?next=https://twitter.com", "", "twitter"},
 }
 
 func trueHostOf(h string) string {
@@ -140,8 +144,12 @@ func genC19(t *rapid.T) *Case {
 			if g.chance(65, "twbq") {
 				o.Tag = "blockquote"
 				g.push("tw")
-				el = `<blockquote class="twitter-tweet" lang="en"><p>` + g.words(g.intn(2, 10, "tww")) + ` <a href="https://t.co/` + g.tokp("tco") + `">` + g.words(1) +
-					`</a></p>&mdash; ` + g.words(2) + ` <a href="` + htmlEsc(src) + `">` + g.words(2) + `</a></blockquote>`
+				early := ` <a href="https://t.co/` + g.tokp("tco") + `">` + g.words(1) + `</a>`
+				if g.chance(50, "hashtag") {
+					early += ` <a href="https://twitter.com/hashtag/` + g.tokp("tag") + `?src=hash">#` + g.words(1) + `</a> <a href="https://twitter.com/` + g.tokp("usr") + `">@` + g.words(1) + `</a>`
+				}
+				el = `<blockquote class="twitter-tweet" lang="en"><p>` + g.words(g.intn(2, 10, "tww")) + early +
+					`</p>&mdash; ` + g.words(2) + ` <a href="` + htmlEsc(src) + `">` + g.words(2) + `</a></blockquote>`
 				g.pop()
 			} else {
 				o.Tag = "iframe-tweet"
